@@ -45,21 +45,13 @@ func UpdateMessageForChange(changedFile string) (string, string, string) {
 	return changedFile, oldFileName, newFileName
 }
 
-func ParseLog(text string) {
-	allString := revReg.FindAllString(text, -1)
-	if len(allString) == 1 {
-		str := ""
-		id := revReg.FindStringSubmatch(text)
-		str = strings.Split(text, id[0])[1]
-		auth := authorReg.FindStringSubmatch(str)
-		str = strings.Split(str, auth[1])[1]
-		dat := dateReg.FindStringSubmatch(str)
-		msg := strings.Split(str, dat[0])[1]
-		if len(msg) > 1 {
-			msg = msg[1:]
-		}
+// headerReg matches a whole header line of `git log --pretty=format:[%h] %aN %ad %s --date=short`:
+// the hash at the start of the line, the first date after it, and the rest of the line as the subject.
+var headerReg = regexp.MustCompile(`^\[([\da-f]{5,40})\]\s(.*?)\s(\d{4}-\d{2}-\d{2})(?:\s(.*))?$`)
 
-		currentCommit = CommitMessage{id[1], auth[1][1:], dat[0], msg, nil}
+func ParseLog(text string) {
+	if head := headerReg.FindStringSubmatch(text); head != nil {
+		currentCommit = CommitMessage{head[1], head[2], head[3], head[4], nil}
 	} else if changesReg.MatchString(text) {
 		changes := changesReg.FindStringSubmatch(text)
 		deleted, _ := strconv.Atoi(changes[2])
